@@ -84,6 +84,27 @@ enum Summary {
     BothUnknown { md: String, which: u8 },
     ExistingId { choice: u16 },
     BothExisting { md: String, choice: u16 },
+    /// a stored bundle id, mangled: surrounding whitespace, upper case, "./" or "../blobs/" in
+    /// front, a trailing "/", a truncated id. May be refused; an acceptance must record an id that
+    /// resolves (64 lower-case hex naming a stored blob) or carry the markdown inline.
+    MangledExisting { choice: u16, how: u8, md: Option<String> },
+}
+
+const MANGLES: &[&str] = &["trailing_newline", "leading_space", "crlf", "tabs_both_sides", "upper_case", "dot_slash", "dotdot_blobs", "trailing_slash", "truncated", "trailing_space"];
+
+fn mangle(id: &str, how: u8) -> String {
+    match MANGLES[how as usize % MANGLES.len()] {
+        "trailing_newline" => format!("{id}\n"),
+        "leading_space" => format!(" {id}"),
+        "crlf" => format!("{id}\r\n"),
+        "tabs_both_sides" => format!("\t{id}\t"),
+        "upper_case" => id.to_uppercase(),
+        "dot_slash" => format!("./{id}"),
+        "dotdot_blobs" => format!("../blobs/{id}"),
+        "trailing_slash" => format!("{id}/"),
+        "truncated" => id[..id.len().saturating_sub(1)].to_string(),
+        _ => format!("{id} "),
+    }
 }
 
 #[derive(Debug, Clone, Serialize, Deserialize)]
@@ -208,6 +229,7 @@ fn summary_strategy() -> BoxedStrategy<Summary> {
         1 => (markdown_strategy(), 0u8..2).prop_map(|(md, which)| Summary::BothUnknown { md, which }),
         3 => any::<u16>().prop_map(|choice| Summary::ExistingId { choice }),
         1 => (markdown_strategy(), any::<u16>()).prop_map(|(md, choice)| Summary::BothExisting { md, choice }),
+        3 => (any::<u16>(), 0u8..(MANGLES.len() as u8), proptest::option::weighted(0.25, markdown_strategy())).prop_map(|(choice, how, md)| Summary::MangledExisting { choice, how, md }),
     ]
     .boxed()
 }
@@ -788,6 +810,17 @@ fn one_request(world: &mut World, ctx: &mut Ctx, main: &str, i: usize, req: &Req
                     return;
                 }
             },
+            Summary::MangledExisting { choice, how, md } => match existing(world, ctx, rep, *choice) {
+                Some((id, _bundle)) => {
+                    sum_label = "mangled_existing_id";
+                    rep.class(format!("mangle:{}", MANGLES[*how as usize % MANGLES.len()]));
+                    (md.clone(), Some(mangle(&id, *how)))
+                }
+                None => {
+                    rep.count("skipped_no_existing_artifact", 1);
+                    return;
+                }
+            },
             Summary::BothExisting { md, choice } => match existing(world, ctx, rep, *choice) {
                 Some((id, bundle)) => {
                     sum_label = if bundle { "markdown_and_existing_id" } else { "markdown_and_existing_non_bundle_id" };
@@ -806,7 +839,7 @@ fn one_request(world: &mut World, ctx: &mut Ctx, main: &str, i: usize, req: &Req
     // is accepted as well as a success (which must then carry a resolvable summary, (d)).
     let lenient_summary = matches!(
         sum_label,
-        "unknown_artifact_id" | "markdown_and_unknown_id" | "existing_non_bundle_artifact_id" | "markdown_and_existing_non_bundle_id"
+        "unknown_artifact_id" | "markdown_and_unknown_id" | "existing_non_bundle_artifact_id" | "markdown_and_existing_non_bundle_id" | "mangled_existing_id"
     );
 
     // ---- source
@@ -1130,7 +1163,9 @@ fn one_request(world: &mut World, ctx: &mut Ctx, main: &str, i: usize, req: &Req
 
     // (d) handoff: resolvable summary
     if req.handoff {
-        let blob_ok = |id: &str| world.it.sandbox.blob_path(id).is_file();
+        // an artifact id is 64 lower-case hex (what every artifact reader of the project accepts);
+        // anything else is not resolvable even if joining it onto the blob directory hits a file
+        let blob_ok = |id: &str| id.len() == 64 && id.bytes().all(|b| b.is_ascii_digit() || (b'a'..=b'f').contains(&b)) && world.it.sandbox.blob_path(id).is_file();
         let bundle_of = |id: &str| -> Option<Value> {
             std::fs::read(world.it.sandbox.blob_path(id)).ok().and_then(|b| serde_json::from_slice::<Value>(&b).ok())
         };
